@@ -285,6 +285,20 @@ def _check_main(ctx):
         same = (k == k0) and (v == v0 or (hasattr(v, "mag") and hasattr(v0, "mag") and v.mag == v0.mag and v.qv == v0.qv))
         if not same:
             ctx.violation("sess-namespace:" + probe, setup + "; " + probe, repr(v0), repr((k, v)), "execute on one EvalEnvironment")
+    # ---- reading an unassigned name is an error WHEREVER the read sits: in the second operand, in a later condition of a
+    # comprehension (also when an earlier condition is false for every element), in the body, inside a function argument
+    for text, names_unbound in [("{x : x in 1..3, x > 5, y > 0}", []), ("{x : x in 1..3, y > 0, x > 5}", []), ("{x + y : x in 1..3}", []),
+                                ("{x : x in 1..3, 0, y}", []), ("{x : x in 1..3, x > 1, x > 2, y > 0}", []), ("{x : x in 1..y}", []),
+                                ("a = 1; b = {x : x in 1..3, x > 5, y > 0}; c = 2", ["b", "c"]), ("0 * y", []), ("max(1, y)", []),
+                                ("a = 5; b = a + y; c = 1", ["b", "c"]), ("{1 : x in 1..2, y}", []), ("sum({x : x in 1..2, x > 9, y == 1})", [])]:
+        env = R.new_env()
+        r = R.execute(text, env=env)
+        ctx.count("unassigned-read:" + text, bucket="unassigned reads")
+        left = [nm for nm in names_unbound if nm in env._variables]
+        if r["escaped"] or r["status"] != 1 or left:
+            ctx.violation("sess-unassigned-read:" + text, text, "status 1 (y was never assigned)" + (", %s not bound" % names_unbound if names_unbound else ""),
+                          "status %s %s out=%r bound afterwards: %s" % (r["status"], r["escaped"] or "", r["out"].strip()[:60], left),
+                          "fresh EvalEnvironment; execute(%r)" % text)
     # ---- only an assignment changes a binding: expression statements (incl. comprehensions whose generator
     #      variables shadow session names, failing ones too) leave the whole table as it was
     exprs = ["{x : x in 1..3}", "{x*y : x in 1..3, y in 4..6}", "sum({z : z in {1,2}})", "{x : x in 1..3, x/0}", "{true : true in 1..2}",
